@@ -225,7 +225,7 @@ def chainNodes : Nat → Mem → Option Nat → R (List Node)
 
 /-- `xmpp_stanza_add_child_ex(stanza = p, child = c, do_clone)` -/
 def addChildEx (m : Mem) (p c : Nat) (doClone : Bool) : R (Mem × Int) := do
-  let m ← if doClone then clone m c else pure m
+  let m ← (if doClone then clone m c else pure m)
   let nc ← m.deref c
   let m := m.put c { nc with parent := some p }                 -- child->parent = stanza
   let np ← m.deref p
@@ -388,9 +388,9 @@ def replyError (m : Mem) (s : Nat) (errorType condition text : Option Bytes) : R
     | some r =>
       let (m, _) ← setAttribute m r kType sError                 -- xmpp_stanza_set_type(reply, "error")
       let to ← getAttribute m s kTo                              -- xmpp_stanza_get_to(stanza)
-      let (m, _) ← match to with
+      let (m, _) ← (match to with
         | some to => setAttribute m r kFrom to
-        | none => pure (m, (0 : Int))
+        | none => pure (m, (0 : Int)))
       let (m, error) := stanzaNew m
       let (m, _) ← setName m error sError
       let (m, _) ← setAttribute m error kType et
